@@ -521,9 +521,9 @@ def enumerate_tree(case, max_leaves=400):
     def rec(g, ops):
         if leaves[0] >= max_leaves:
             return
-        if g.is_complete or len(ops) > 60:
+        if g.is_complete or sum(1 for o in ops if not o.get("probe")) > 40:
             leaves[0] += 1
-            yield {**case, "ops": list(ops)}
+            yield {**case, "ops": list(ops), "_tree": True}
             return
         p = g.action
         stack = g.stacks[p] if p is not None else 0
@@ -542,7 +542,7 @@ def enumerate_tree(case, max_leaves=400):
                 probes.append({"o": c, "probe": True})
         if not accepted:
             leaves[0] += 1
-            yield {**case, "ops": list(ops) + probes}
+            yield {**case, "ops": list(ops) + probes, "_tree": True, "_stuck": True}
             return
         # equivalent spellings (amount None vs explicit) lead to the same state: keep one continuation each
         seen = set()
